@@ -255,8 +255,11 @@ def _judge(i_op, op, out, before, after, changed, wopens, w, ctx, events, states
     if not rel.startswith("inputs/") or rel not in after:
         return viol("I11.1", i_op, "%s wrote %r (exists: %s)" % (what, rel, rel in after), "file-place")
     others = [c for c in changed if c != rel]
+    clobbered = [c for c in others if c.startswith("inputs/") and c.endswith(".py") and not c.rsplit("/", 1)[-1].startswith(".")]
+    if clobbered:
+        return viol("I11.1", i_op, "%s also changed %s" % (what, clobbered), "stray-write")
     if others:
-        return viol("I11.1", i_op, "%s also changed %s" % (what, others), "stray-write")
+        w.probe("auxiliary-file-written")       # a cache or log beside the game file is not a second game file
     data = after[rel]
     states.append(h(data))
     # self-model: identical to what the same command writes on an empty disk
